@@ -753,6 +753,45 @@ mut("C20", "files-after-cd", "for_dir", "files are offered after cd",
             }
 ''', ""))
 
+mut("C20", "tokenizer-blank-class", "R20-4|parsers::parser_line::parse_line|pred|is_whitespace",
+    "any Unicode blank separates words, the escaper covers only the space",
+    (P, """            if c == ' ' {
+                continue;
+            } else if c == '"'""", """            if c.is_whitespace() {
+                continue;
+            } else if c == '"'"""))
+mut("C20", "tokenizer-tab-separates", "R20-4|parsers::parser_line::parse_line|eq|\t",
+    "a TAB separates words too, the escaper does not cover it",
+    (P, """        if c == ' ' {
+            if semi_ok {""", """        if c == ' ' || c == '\\t' {
+            if semi_ok {"""))
+mut("C08", "shell-closes-stale-end", "stale close(pipes[idx-1].1)|shell",
+    "the shell 'defensively' closes the previous pipe's write end again before feeding the here-string",
+    (C, """            if let Some(redirect_from) = &cmd.redirect_from {
+                if redirect_from.0 == "<<<" {""", """            if idx_cmd > 0 {
+                libs::close(pipes[idx_cmd - 1].1);
+            }
+            if let Some(redirect_from) = &cmd.redirect_from {
+                if redirect_from.0 == "<<<" {"""))
+ref("stale-close-after-here-string", ["C04", "C08", "C02"],
+    "the child's close of pipes[idx-1].1 moved behind the here-string installation (repairs the open finding)",
+    (C, """                libs::close(fds_prev.0);
+                libs::close(fds_prev.1);
+""", """                libs::close(fds_prev.0);
+"""),
+    (C, """                    libs::dup2(fds.0, 0);
+                    libs::close(fds.0);
+                }
+            }
+""", """                    libs::dup2(fds.0, 0);
+                    libs::close(fds.0);
+                }
+            }
+            if idx_cmd > 0 {
+                libs::close(pipes[idx_cmd - 1].1);
+            }
+"""))
+
 # ------------------------------------------------------------------ more refactors
 ref("history-params-vec", ["C18"], "bind the INSERT parameters through a params! style slice",
     (H, "    match conn.execute(&sql, [line.trim(), info.as_str()]) {",
